@@ -61,6 +61,9 @@ CHECKS = {
  "C19": ("p2v-inproc", "proptest pcap-file generator x random interleavings of pcap_read_next / pcap_read_all(f[, n]); truncation at every byte offset; header corruption; write round trip; differential against a reference pcap reader",
          "Generated pcap files (both magics, any snaplen, record sizes placed so that records and record headers straddle the 8 KiB reader buffer) are read by generated scripts; every call result and the file object's header properties are compared with a reference reader. Small files are cut at every byte offset and headers are corrupted: exactly the complete records, then null or an error object, never a crash. Packets copied with pcap_write are parsed back by the reference reader and by p2sh.",
          "the global header of a written file and reads after the first error object on a corrupted file are don't-care; one open known finding (records above 65535 bytes)", "DESIGN.md §4 C19"),
+ "C08": ("p2v-inproc", "bounded-exhaustive builtin x arity x boundary-value matrix and operator x operand matrix under catch_unwind, proptest programs with 15% failing operations, stress templates (recursion, locals, arity), and filter programs run through the real binary; oracle: the run ends as a value, a reported error or the status requested by exit",
+         "Every builtin of the real table is called with 0..3 arguments from a 60-value boundary pool (all values and all ordered pairs, sampled triples), every operator on all pairs, generated programs with deliberately failing operations, recursion / many-locals / wrong-arity templates: no panic, native crash or hang. Filter programs with return/break/continue in actions, nested filters, failing patterns and actions and exit(n) are run through the binary on normal, empty and garbage streams: no signal, no panic text, exit status 0 or the requested one.",
+         "memory requests beyond the machine (huge repetition counts / format widths) and printing self-containing containers are excluded as the statement allows; exit() is only exercised end to end", "DESIGN.md §4 C08"),
  "C20": ("p2v-e2e", "proptest generator of pcap streams x filter programs run through the real binary (with and without -s); differential against a reference filter-mode model built on the reference interpreter; byte-exact comparison of the output stream",
          "Generated streams (0..40 Ethernet frames, both magics, varied global headers) are piped into generated filter programs (patterns over NP/PL/WL/TSS/TSU, record and header fields, globals, calls; actions updating globals/locals, printing, assigning fields; action-less and pattern-less filters; end filter). stdout without -s must equal the input global header plus exactly the selected records as modified so far; with -s exactly the printed text; the printed text must equal the model's in both runs.",
          "trusts the reference interpreter for expression/statement semantics (validated against p2sh by C02); runtime errors inside filters are don't-care", "DESIGN.md §4 C20"),
